@@ -18,7 +18,7 @@ import (
 
 func init() {
 	register(&Prop{ID: "C13", Gen: c13Gen, Oracle: c13Oracle,
-		Rule: "fork enumeration over (|A|, common prefix p, |B|, tile height, client position a, presented head b <,=,> a, tile source, cold/warm cache, long-lived / restarted / second client on the shared configuration, fresh client shown B first), plus stale-head replays on one log, plus an exhaustive small-scope sweep (tile height, a, b, p) of an equivocating server splicing the other tree's hashes into its tiles entry by entry (all tiles / only the widest version of each partial tile); non-trivial = both heads lie beyond the common prefix or the head moves; distinct by scenario line"})
+		Rule: "fork enumeration over (|A|, common prefix p, |B|, tile height, client position a, presented head b <,=,> a, tile source, cold/warm cache, long-lived / restarted / second client on the shared configuration, fresh client shown B first), plus stale-head replays on one log, plus an exhaustive small-scope sweep (tile height, a, b, p) of an equivocating server splicing the other tree's hashes into its tiles entry by entry (all tiles / only the widest version of each partial tile), plus lost install races (a long-lived client, three heads A@a1, A@a2, B@b in flight under tile-read-last / random / fixed schedules; report content checked per callback), plus several different forked heads shown to one long-lived client one after the other and at the same time (every security failure of a lookup that read its own response must have handed that head to the callback); non-trivial = both heads lie beyond the common prefix or the head moves; distinct by scenario line"})
 }
 
 // c13StrictAfterSecurity: see the report — after a fork was reported through SecurityError a long-lived client whose
@@ -331,6 +331,212 @@ func c13Judge(g *Gen, c c13Case) {
 	clReport(g, clCheckAuthentic(out), sc)
 	clReport(g, c13CheckFork(g, out), sc)
 	clReport(g, c13CheckConcurrent(g, out), sc)
+	clReport(g, c13CheckSecurityPar(g, out), sc)
+	clReport(g, c13CheckSecurityFresh(g, out), sc)
+}
+
+// c13CheckSecurityPar: the clause "whenever the failure is reported as a security error the security callback received
+// both signed heads", for SCHEDULED batches (lookup goroutines g0, g1, … of one client instance running at the same time).
+//
+// Observer class added (it was missing: clCheckSecurity looks at the CONTENT of the SecurityError message only for
+// sequential lookups, lk.g == "s"; for scheduled batches the oracle looked at results, configuration writes and accepted
+// heads, never at which signed notes the report carries — so a report built from a stale snapshot after a lost install
+// race in mergeLatestMem, where another goroutine of the same instance installs a head while the first one is fetching
+// tiles for its check, could not be seen).  Same statement as the sequential one, per callback invocation instead of
+// per lookup window (windows of concurrent lookups overlap): the message of every SecurityError call carries two validly
+// signed, mutually inconsistent heads among the heads this client had been given (stored head reads, tree notes of
+// lookup responses, by ANY of its goroutines) before the call; a lookup of the batch that fails with the security error
+// was preceded by a callback on its instance; a callback made on a lookup goroutine makes that lookup fail with it.
+func c13CheckSecurityPar(g *Gen, out *clOutcome) []clFinding {
+	var fs []clFinding
+	w := out.w
+	tr := out.env.trace
+	anyPar := false
+	for _, lk := range out.looks {
+		if lk.g != "s" {
+			anyPar = true
+		}
+	}
+	if !anyPar {
+		return nil
+	}
+	// goroutine labels repeat from batch to batch: resolve a callback to its lookup by label AND window
+	lookOf := func(ev clEvent) *clLookup {
+		for _, lk := range out.looks {
+			if lk.g != "s" && lk.c == ev.C && lk.g == ev.G && lk.from <= ev.Seq && ev.Seq < lk.to {
+				return lk
+			}
+		}
+		return nil
+	}
+	// the tree note handed to a goroutine with a lookup response, by position: used for the coverage tags only
+	type given struct {
+		seq  int
+		g    string
+		note []byte
+	}
+	for _, ev := range tr {
+		if ev.Kind != "sec" || ev.C < 0 || ev.G == "s" {
+			continue
+		}
+		lk := lookOf(ev)
+		if lk == nil {
+			continue // not made inside a scheduled lookup: clCheckSecurity's business
+		}
+		g.st.OracleTags["par-security-report"]++
+		msg := ev.Data
+		var inMsg []clHead
+		var lookNotes []given
+		seen := map[string]bool{}
+		for _, e2 := range tr[:ev.Seq] {
+			if e2.C != ev.C || e2.Err != "" {
+				continue
+			}
+			var cnd []byte
+			switch {
+			case e2.Kind == "rf" && e2.File == clName+"/latest" && len(e2.Data) > 0:
+				cnd = e2.Data
+			case e2.Kind == "rr" || e2.Kind == "rc":
+				if _, _, rest, err := tlog.ParseRecord(e2.Data); err == nil && len(rest) > 0 {
+					cnd = rest
+					lookNotes = append(lookNotes, given{e2.Seq, e2.G, rest})
+				}
+			}
+			if len(cnd) == 0 || seen[string(cnd)] {
+				continue
+			}
+			seen[string(cnd)] = true
+			if h := w.classifyHead(cnd); h.valid && bytes.Contains(msg, clIndent(cnd)) {
+				inMsg = append(inMsg, h)
+			}
+		}
+		okPair := false
+		for i := range inMsg {
+			for j := range inMsg {
+				a, b := inMsg[i], inMsg[j]
+				if a.n <= b.n && !w.prefixOf(a, b) {
+					okPair = true
+				}
+			}
+		}
+		// coverage: the report names a head that was presented to ANOTHER goroutine of the instance; and, when this
+		// goroutine had received its own response before that other one did, it had taken its snapshot of the in-memory
+		// head before the other head could be installed — it compares against it only after losing the install race
+		mine := -1
+		for _, gv := range lookNotes {
+			if gv.g == ev.G && gv.seq >= lk.from {
+				mine = gv.seq
+			}
+		}
+		other, lost := false, false
+		for _, gv := range lookNotes {
+			if gv.g != ev.G && gv.g != "s" && gv.g != "t" && bytes.Contains(msg, clIndent(gv.note)) {
+				other = true
+				if mine >= 0 && mine < gv.seq {
+					lost = true
+				}
+			}
+		}
+		if other {
+			g.st.OracleTags["par-security-report/names-head-of-another-goroutine"]++
+		}
+		if lost {
+			g.st.OracleTags["par-security-report/after-lost-install-race"]++
+		}
+		if !okPair {
+			fs = append(fs, clFinding{"C13 security callback message does not carry two inconsistent signed heads (concurrent lookups of one client)", lk.key})
+		}
+		if lk.kind != "err:security" {
+			fs = append(fs, clFinding{"C13 security callback invoked but the lookup did not fail with a security error", lk.key + " -> " + lk.kind})
+		}
+	}
+	for _, lk := range out.looks {
+		if lk.g == "s" || lk.kind != "err:security" || lk.to > len(tr) {
+			continue
+		}
+		called := false
+		for _, ev := range tr[:lk.to] {
+			if ev.C == lk.c && ev.Kind == "new" {
+				called = false
+			}
+			if ev.C == lk.c && ev.Kind == "sec" {
+				called = true
+			}
+		}
+		if !called {
+			fs = append(fs, clFinding{"C13 lookup failed with a security error but the security callback was not invoked", lk.key})
+		}
+	}
+	return fs
+}
+
+// c13CheckSecurityFresh: "whenever the failure is reported as a security error the security callback received both signed
+// heads" — for EVERY such failure, not only the first one of a client instance.
+//
+// Observer class added (it was missing: clCheckSecurity accepts a security failure without a callback in its window as
+// soon as ANY earlier callback ran on the instance, because results are cached per instance — the initialisation error
+// and the per-file once-cache; that is right for a replayed result and wrong for a new comparison).  The two are told
+// apart by what the lookup did: a replayed result is returned without a single external operation; a lookup that READ a
+// response (cache or network) for its file made a comparison of its own with the signed head of that response.  When
+// that lookup ends in the security error, the callback must have received the head it was shown: either the callback
+// ran for it (in the lookup's window for a sequential caller / on the lookup's goroutine between its read and its
+// return in a scheduled batch), or — an identical report need not be repeated — an earlier report made on this instance
+// already carries that very signed note (and, by the message clauses, a head contradicting it).
+func c13CheckSecurityFresh(g *Gen, out *clOutcome) []clFinding {
+	var fs []clFinding
+	tr := out.env.trace
+	for _, lk := range out.looks {
+		if lk.kind != "err:security" || lk.from > lk.to || lk.to > len(tr) {
+			continue
+		}
+		remote, ok := clLookupFile(lk.path, lk.vers)
+		if !ok {
+			continue
+		}
+		read, called := -1, false
+		var presented []byte
+		for _, ev := range tr[lk.from:lk.to] {
+			if ev.C != lk.c {
+				continue
+			}
+			mine := lk.g == "s" || ev.G == lk.g
+			if mine && ev.Err == "" && ((ev.Kind == "rc" && ev.File == clName+remote) || (ev.Kind == "rr" && ev.File == remote)) {
+				if _, _, rest, err := tlog.ParseRecord(ev.Data); err == nil && len(rest) > 0 {
+					read, presented = ev.Seq, rest
+				}
+			}
+			if mine && read >= 0 && ev.Kind == "sec" {
+				called = true
+			}
+		}
+		if read < 0 {
+			g.st.OracleTags["security-failure/replayed-result"]++
+			continue
+		}
+		g.st.OracleTags["security-failure/own-comparison"]++
+		if called {
+			continue
+		}
+		// not reported now: the same signed head must have been reported on this instance before
+		earlier := false
+		for _, ev := range tr[:lk.to] {
+			if ev.C != lk.c {
+				continue
+			}
+			if ev.Kind == "new" {
+				earlier = false
+			}
+			if ev.Kind == "sec" && bytes.Contains(ev.Data, clIndent(presented)) {
+				earlier = true
+			}
+		}
+		if earlier {
+			g.st.OracleTags["security-failure/own-comparison-report-not-repeated"]++
+			continue
+		}
+		fs = append(fs, clFinding{"C13 lookup failed with a security error but the signed head it was shown was never handed to the security callback", lk.key})
+	}
+	return fs
 }
 
 // c13CheckConcurrent: scheduled batches (one lookup per client instance and log).  "Two mutually inconsistent signed
@@ -468,6 +674,209 @@ func c13SpliceCases(g *Gen) []c13Case {
 	return cases
 }
 
+// c13LostRaceCases — lost install races in the in-memory merge of a LONG-LIVED client.
+//
+// Input class (added because the concurrent shapes of c13Enumerate always start the batch on a fresh instance — the
+// first goroutine is still initialising from the configuration — with exactly two goroutines and two heads; and because
+// the report content of such batches was not looked at, see c13CheckSecurityPar): one client that has already completed
+// a lookup at A@p (in-memory head = stored head = A@p, its tiles cached) then runs THREE lookups at the same time, answered
+// with three different signed heads — A@a1, A@a2 (p < a1 < a2) and the fork B@b (b > p, common prefix p) — under
+// schedules that keep tile reads back (memrace) or are random / round-robin / fixed.  Every goroutine snapshots A@p,
+// checks its head against it while fetching tiles, and all but the first to finish lose the compare-and-swap on the
+// in-memory head and go round again against the head that won (possibly twice; with b < a through the "head looks old"
+// branch).  Whatever the order, the heads on A and the head on B are mutually inconsistent, so exactly one side is
+// accepted and every report must carry the two heads that were compared.  No new oracle: c13CheckSecurityPar,
+// c13CheckConcurrent, timeline and authenticity clauses.
+func c13LostRaceCases(g *Gen) []c13Case {
+	// tile heights: with 2^h above every size involved, all hashes of a tree sit in ONE partial level-0 tile whose name
+	// carries the tree size, so the split-view server below can answer every head with its own tiles (no two of the
+	// three heads share a tile name) and every check runs to its verdict; with small h the three trees compete for
+	// shared tile names and part of the checks end as refused tiles instead (kept: the refusals are scheduled too)
+	maxN, heights, reps := 9, []int{1, 2, 4}, 1
+	if thorough {
+		maxN, heights, reps = 24, []int{1, 2, 3, 5, 8}, 2
+	}
+	wseed := g.U64()%1000 + 1
+	strats := []string{"memrace", "memrace", "rand", "memrace", "rr", "last", "canon"}
+	var cases []c13Case
+	k := 0
+	for _, h := range heights {
+		for nA := 3; nA <= maxN; nA++ {
+			for p := 1; p < nA-1; p++ {
+				if thorough && nA > 12 && g.Intn(nA/4) != 0 {
+					continue
+				}
+				for rep := 0; rep < reps; rep++ {
+					nB := p + 1 + g.Intn(5)
+					w := clGetWorld(wseed, nA, p, nB)
+					a1 := p + 1 + g.Intn(nA-p-1) // p < a1 < nA
+					a2 := a1 + 1 + g.Intn(nA-a1) // a1 < a2 <= nA
+					b := p + 1 + g.Intn(nB-p)    // p < b <= nB
+					for tries := 0; tries < 4 && (b == a1 || b == a2); tries++ {
+						b = p + 1 + g.Intn(nB-p) // three different sizes: three different right-edge tiles
+					}
+					jb := -1
+					for tries := 0; tries < 8 && jb < 0; tries++ {
+						j := p + g.Intn(b-p)
+						if _, dup := w.A.byKey[w.B.recs[j].key()]; !dup {
+							jb = j
+						}
+					}
+					if jb < 0 {
+						continue
+					}
+					i0, i1, i2 := g.Intn(p), p+g.Intn(a1-p), a1+g.Intn(a2-a1)
+					p1, ok1 := clLookupFile(w.A.recs[i1].path, w.A.recs[i1].vers)
+					bp, ok2 := clLookupFile(w.B.recs[jb].path, w.B.recs[jb].vers)
+					if !ok1 || !ok2 {
+						continue
+					}
+					strat := strats[k%len(strats)]
+					k++
+					line := fmt.Sprintf("client.run w=%d:%d:%d:%d h=%d srv=A@%d new=0 look=0:A%d srv=A@%d f+=P%s/src/A@%d f+=P%s/src/B@%d f+=T*/split/B@%d par=%s:%d:0.A%d,0.A%d,0.B%d",
+						wseed, nA, p, nB, h, p, i0, a2, hx(p1), a1, hx(bp), b, b, strat, g.Intn(100000), i1, i2, jb)
+					rel := "b>a2"
+					switch {
+					case b <= a1:
+						rel = "b<=a1"
+					case b <= a2:
+						rel = "a1<b<=a2"
+					}
+					cases = append(cases, c13Case{line, "concurrent/lost-race/" + rel})
+				}
+			}
+		}
+	}
+	return cases
+}
+
+// c13MultiForkCases — a client that lives on after a first security report and is shown FURTHER forked heads.
+//
+// Input class (added because every shape of c13Enumerate presents at most ONE forked head to a client instance — the
+// second lookup of a fork scenario is the /go.mod line of the same file, i.e. a replayed result — so "every failure is
+// reported" was only ever exercised for the first report of an instance): a long-lived client at A@a (a > p) is answered,
+// one lookup after the other, with two or three DIFFERENT validly signed heads of the fork B (common prefix p < b), each
+// for a different record of B, in both size relations — b <= a (the presented head is checked against the client's own
+// tree, which stays the same from report to report) and b > a — with the tiles the comparison needs (own tree: A's tiles;
+// presented tree: B's tiles) or with the other side's tiles (refused tiles); then the honest server again.  The same with
+// the forked heads presented at the same time (scheduled batch on the long-lived client).  Oracles: fork clause,
+// c13CheckSecurityFresh, clCheckSecurity / c13CheckSecurityPar (message content), timeline.
+func c13MultiForkCases(g *Gen) []c13Case {
+	maxN, heights := 9, []int{1, 2, 4}
+	if thorough {
+		maxN, heights = 24, []int{1, 2, 3, 5, 8}
+	}
+	wseed := g.U64()%1000 + 1
+	strats := []string{"rand", "memrace", "rr", "last", "canon"}
+	var cases []c13Case
+	k := 0
+	for _, h := range heights {
+		for nA := 2; nA <= maxN; nA++ {
+			for p := 0; p < nA; p++ {
+				if thorough && nA > 12 && g.Intn(nA/4) != 0 {
+					continue
+				}
+				for _, shape := range []string{"le", "mixed"} {
+					a := p + 1 + g.Intn(nA-p) // p < a <= nA
+					if shape == "le" && a < p+2 {
+						a = p + 2
+						if a > nA {
+							continue
+						}
+					}
+					nB := a + g.Intn(3)
+					w := clGetWorld(wseed, nA, p, nB)
+					// the sizes of the forked heads, all different
+					var pool []int
+					hi := nB
+					if shape == "le" {
+						hi = a
+					}
+					for b := p + 1; b <= hi; b++ {
+						pool = append(pool, b)
+					}
+					for i := len(pool) - 1; i > 0; i-- {
+						j := g.Intn(i + 1)
+						pool[i], pool[j] = pool[j], pool[i]
+					}
+					if len(pool) > 3 {
+						pool = pool[:3]
+					}
+					if len(pool) < 2 {
+						continue
+					}
+					// one record of B beyond the common prefix per head, all different, none of them a key of A
+					used := map[int]bool{}
+					var bs, js []int
+					for _, b := range pool {
+						for tries := 0; tries < 8; tries++ {
+							j := p + g.Intn(b-p)
+							if _, dup := w.A.byKey[w.B.recs[j].key()]; !dup && !used[j] {
+								used[j] = true
+								bs, js = append(bs, b), append(js, j)
+								break
+							}
+						}
+					}
+					if len(bs) < 2 {
+						continue
+					}
+					head := fmt.Sprintf("client.run w=%d:%d:%d:%d h=%d", wseed, nA, p, nB, h)
+					first := fmt.Sprintf("srv=A@%d new=0 look=0:A%d", a, g.Intn(a))
+					back := fmt.Sprintf("srv=A@%d look=0:A%d", nA, g.Intn(nA))
+					// sequential
+					steps := []string{head, first}
+					for i, b := range bs {
+						tiles := fmt.Sprintf("srv=B@%d,A@%d", b, a) // b <= a: checked against the client's own tree
+						if b > a {
+							tiles = fmt.Sprintf("srv=B@%d", b)
+						}
+						if g.Intn(5) == 0 {
+							tiles = []string{fmt.Sprintf("srv=B@%d", b), fmt.Sprintf("srv=B@%d,A@%d", b, nA), fmt.Sprintf("srv=B@%d,B@%d", b, nB)}[g.Intn(3)]
+						}
+						steps = append(steps, tiles, fmt.Sprintf("look=0:B%d", js[i]))
+						if g.Intn(3) == 0 {
+							steps = append(steps, fmt.Sprintf("look=0:B%dm", js[i])) // replayed result in between
+						}
+					}
+					steps = append(steps, back)
+					cases = append(cases, c13Case{strings.Join(steps, " "), "multifork/seq/" + shape})
+					// the same heads at the same time
+					par := []string{head, first, fmt.Sprintf("srv=A@%d", a)}
+					var items []string
+					okAll := true
+					for i, b := range bs {
+						bp, ok := clLookupFile(w.B.recs[js[i]].path, w.B.recs[js[i]].vers)
+						if !ok {
+							okAll = false
+							break
+						}
+						par = append(par, fmt.Sprintf("f+=P%s/src/B@%d", hx(bp), b))
+						items = append(items, fmt.Sprintf("0.B%d", js[i]))
+					}
+					if !okAll {
+						continue
+					}
+					if mx := bs[0]; shape != "le" {
+						for _, b := range bs {
+							if b > mx {
+								mx = b
+							}
+						}
+						if mx > a {
+							par = append(par, fmt.Sprintf("f+=T*/split/B@%d", mx))
+						}
+					}
+					par = append(par, fmt.Sprintf("par=%s:%d:%s", strats[k%len(strats)], g.Intn(100000), strings.Join(items, ",")))
+					k++
+					cases = append(cases, c13Case{strings.Join(par, " "), "multifork/par/" + shape})
+				}
+			}
+		}
+	}
+	return cases
+}
+
 func c13Oracle(g *Gen, n int) {
 	if n <= 0 {
 		return
@@ -502,6 +911,14 @@ func c13Oracle(g *Gen, n int) {
 	}
 	// entry-level tile splices by an equivocating server: small-scope exhaustive sweep, own budget
 	for _, c := range c13SpliceCases(g) {
+		c13Judge(g, c)
+	}
+	// lost install races on a long-lived client (three heads in flight): small sweep, own budget
+	for _, c := range c13LostRaceCases(g) {
+		c13Judge(g, c)
+	}
+	// several different forked heads shown to one long-lived client, one after the other and at the same time
+	for _, c := range c13MultiForkCases(g) {
 		c13Judge(g, c)
 	}
 	// one honest log, two lookups in one client + another client writing the shared configuration in between
